@@ -158,8 +158,7 @@ def _arm_result_with_scrut(f, body, bind, scrut, v):
     def on_call(folder, c):
         cc = T.canon(T.callee_of(c))
         last = cc.split("::")[-1]
-        if last == "push" and len(c["args"]) == 2:
-            pushes.append(folder.fold(c["args"][1]))
+        if T.sink_call(folder, c, pushes):
             return None
         return NotImplemented
     env = {scrut: v}
@@ -438,8 +437,7 @@ def tab_eci(ctx):
 
         def on_call(folder, call):
             cc = T.canon(T.callee_of(call))
-            if cc.endswith("Vec::push"):
-                out.append(folder.fold(call["args"][1]))
+            if T.sink_call(folder, call, out):
                 return None
             return NotImplemented
         fo = T.Folder(f, env={cparam: c}, on_call=on_call, effects=True, local_calls=2)
